@@ -10,9 +10,9 @@ zipper).  Proved for **every structure, every text, both validation levels**:
 * `C08_order`: with group finding on, flattening the resulting tree yields a *sublist* of the
   segments parsed from the input lines, in document order; every element of it is the parse of its
   own line (nothing is invented, duplicated or reordered).
-* `C08_sound`: every group node of the resulting tree is a declared group row of the element it sits in, carrying exactly
-  that row's own structure, at every depth (the tree is a sub-structure of the message structure: no group is invented,
-  none is attached to an element that does not declare it).
+* `C08_sound`: every node of the resulting tree is a declared child of the element it sits in, at every depth: a group node is
+  one of its parent's group rows and carries exactly that row's structure; a segment node is the parse of an input line whose
+  name is a direct segment row of its parent (no group is invented, nothing is attached where it is not declared).
 * `C03_flat_keeps_all`: with group finding off the result is exactly the parsed lines, all of them.
 * `C08_deterministic`: the tree is a function of (tables, text, delimiters, level) — trivially, it is
   a Lean function; stated for completeness.
@@ -81,11 +81,16 @@ theorem C08_order (T : Tables) (text : Str) (ec : EC) (strict : Bool) (rows : Li
     simpa [St.flatAll, flatL, pending] using h2
 
 
-theorem foldl_place_ok (T : Tables) (ec : EC) (strict : Bool) (lines : List Str) :
+/-- a segment node is sound in `rows` when it is the parse of one of the input lines whose (raw, three-character) name is a
+    direct segment row of `rows` -/
+def SegFrom (T : Tables) (ec : EC) (strict : Bool) (lines : List Str) (sg : Pe.Seg) (rows : List SRow) : Prop :=
+  ∃ l ∈ lines, Pe.segment T (strip l) ec strict = .ok sg ∧ direct (String.ofList (l.take 3)) rows = some true
+
+theorem foldl_place_ok (T : Tables) (ec : EC) (strict : Bool) (all : List Str) (lines : List Str) (hsub : ∀ l ∈ lines, l ∈ all) :
     ∀ (s s' : St),
       lines.foldlM (fun (s : St) l =>
         place T strict (String.ofList (l.take 3)) (fun _ => Pe.segment T (strip l) ec strict) (s.frames.length + 1) s) s = .ok s' →
-      s.Ok → s'.Ok ∧ s'.topRows = s.topRows := by
+      St.Ok (SegFrom T ec strict all) s → St.Ok (SegFrom T ec strict all) s' ∧ s'.topRows = s.topRows := by
   induction lines with
   | nil =>
     intro s s' h hok
@@ -99,17 +104,23 @@ theorem foldl_place_ok (T : Tables) (ec : EC) (strict : Bool) (lines : List Str)
     | error e => simp [hp] at h
     | ok s1 =>
       simp only [hp] at h
-      obtain ⟨h1, h2⟩ := place_ok T strict _ _ _ s s1 hp hok
-      obtain ⟨h3, h4⟩ := ih s1 s' h h1
+      have hmk : ∀ sg, (fun (_ : Unit) => Pe.segment T (strip l) ec strict) () = .ok sg →
+          ∀ rows, direct (String.ofList (l.take 3)) rows = some true → SegFrom T ec strict all sg rows :=
+        fun sg hsg rows hd => ⟨l, hsub l (List.mem_cons_self), hsg, hd⟩
+      obtain ⟨h1, h2⟩ := place_ok (SegFrom T ec strict all) T strict _ _ hmk _ s s1 hp hok
+      obtain ⟨h3, h4⟩ := ih (fun x hx => hsub x (List.mem_cons_of_mem _ hx)) s1 s' h h1
       exact ⟨h3, by rw [h4, h2]⟩
 
-/-- **C08 (soundness).** With group finding on, every group in the resulting tree is a declared child of the element it is
-    put in, with exactly the declared structure, recursively — for every structure, every text, both levels. -/
+/-- **C08 (soundness).** With group finding on, every element of the resulting tree is a declared child of the element it
+    is put in, at every depth: a group node is one of the group rows of its parent and carries exactly that row's
+    structure; a segment node is the parse of an input line whose name is a direct segment row of its parent — for every
+    structure, every text, both validation levels. -/
 theorem C08_sound (T : Tables) (text : Str) (ec : EC) (strict : Bool) (rows : List SRow)
-    (nodes : List Node) (h : parseSegments T text ec strict (some rows) true = .ok nodes) : GSoundL rows nodes := by
+    (nodes : List Node) (h : parseSegments T text ec strict (some rows) true = .ok nodes) :
+    GSoundL (SegFrom T ec strict ((splitOn '\r' text).filter (fun l => !l.isEmpty))) rows nodes := by
   unfold parseSegments at h
   simp only [bind, Except.bind] at h
-  generalize hl : (splitOn '\r' text).filter (fun l => !l.isEmpty) = lines at h
+  generalize hl : (splitOn '\r' text).filter (fun l => !l.isEmpty) = lines at h ⊢
   cases hf : lines.foldlM (fun (s : St) l =>
       place T strict (String.ofList (l.take 3)) (fun _ => Pe.segment T (strip l) ec strict) (s.frames.length + 1) s)
       (⟨[], rows, []⟩ : St) with
@@ -117,9 +128,9 @@ theorem C08_sound (T : Tables) (text : Str) (ec : EC) (strict : Bool) (rows : Li
   | ok st =>
     simp only [hf, pure, Except.pure] at h
     cases h
-    have h0 : (⟨[], rows, []⟩ : St).Ok := ⟨by simp [GSoundL], by simp [framesOk]⟩
-    obtain ⟨h1, h2⟩ := foldl_place_ok T ec strict lines _ st hf h0
-    have := finish_ok (st.frames.length + 1) st h1 (by omega)
+    have h0 : St.Ok (SegFrom T ec strict lines) (⟨[], rows, []⟩ : St) := ⟨by simp [GSoundL], by simp [framesOk]⟩
+    obtain ⟨h1, h2⟩ := foldl_place_ok T ec strict lines lines (fun _ hx => hx) _ st hf h0
+    have := finish_ok (SegFrom T ec strict lines) (st.frames.length + 1) st h1 (by omega)
     rw [h2] at this
     exact this
 
